@@ -99,7 +99,7 @@ def run(prog: Program, rep, thorough: bool) -> None:
     request = set(params[2:]) | {a.arg for a in F.func.node.args.kwonlyargs}
     if len(request) < 3:
         raise AnalysisError(f'_integrate: request parameters not found: {params}')
-    _locs, why = taint(cfg, deps, request, exempt_tests={F.loop_head.id})
+    _locs, why = taint(cfg, deps, request, exempt_tests={n_.id for n_ in F.loop_controls})
     # sinks: the state, what the physics reads, every solver attribute
     state = {F.t, F.P, F.V, F.rho, F.a}
     # what the physics reads: the backward closure (data dependence, and the tests that control the defining
@@ -111,13 +111,13 @@ def run(prog: Program, rep, thorough: bool) -> None:
     while work:
         cur = work.pop()
         for n in cfg.nodes:
-            if not (F.in_loop(n) and n.ast is not None) or n is F.loop_head:
+            if not (F.in_loop(n) and n.ast is not None) or n in F.loop_controls:
                 continue
             if not any(d == cur or d.startswith(cur + '.') or cur.startswith(d + '.') for d in defs_of(n)):
                 continue
             used = set(deps.uses[n.id])
             for t_, _lab in cd[n.id]:
-                if cfg.nodes[t_] is not F.loop_head:
+                if cfg.nodes[t_] not in F.loop_controls:
                     used |= set(deps.uses[t_])
             for u in used:
                 if u not in phys_names and u not in request:
@@ -151,7 +151,7 @@ def run(prog: Program, rep, thorough: bool) -> None:
     # the loop bound is the only place the requested range is read
     rng = params[2]
     readers = [n for n in cfg.nodes if n.ast is not None and rng in deps.uses[n.id]]
-    others = [n for n in readers if n is not F.loop_head]
+    others = [n for n in readers if n not in F.loop_controls]
     if others:
         n0 = others[0]
         if any(d in sinks for d in defs_of(n0)) or n0.kind == 'test':
